@@ -56,12 +56,15 @@ print(r or 'no violation'); sys.exit(1 if r else 0)
 
 def main(tier):
     L = 4 if tier == 'quick' else 5
-    sw = Sweep('C19 partition sweep', {'alphabet': SIGMA, 'max_len': L, 'code_points': 'all 1,114,112 singly' if tier != 'quick'
-                                       else 'U+0000..U+2FFF and 4096 random others singly', 'random_long': 300})
+    sw = Sweep('C19 partition sweep', {'alphabet': SIGMA, 'max_len': L, 'code_points': 'all 1,112,064 scalar values singly',
+                                       'sizing_atoms_max': 3 if tier == 'quick' else 4, 'random_long': 300})
     rnd = random.Random(int(os.environ.get('VERIF_SEED', '0') or 0))
     cases = [''.join(t) for n in range(0, L + 1) for t in itertools.product(SIGMA, repeat=n)]
-    cps = range(0x110000) if tier != 'quick' else list(range(0x3000)) + [rnd.randrange(0x3000, 0x110000) for _ in range(4096)]
-    cases += [chr(cp) for cp in cps if not 0xD800 <= cp <= 0xDFFF]
+    cases += [chr(cp) for cp in range(0x110000) if not 0xD800 <= cp <= 0xDFFF]       # every code point, singly
+    for cp in (0xFEFF, 0x200B, 0x2028, 0x00A0, 0x0085, 0x3000, 0xFFFD, 0x10FFFF, 0x7F, 0x00):   # and at token boundaries
+        cases += [chr(cp) + '\\x{a}', '{' + chr(cp) + '}', 'a' + chr(cp), '$' + chr(cp) + '$']
+    S2 = ['\\left', '\\big', '\\right', '\\Bigg', ' ', '\t', '(', '[', '|', '.', 'x', '\\', '{', '\n', '\\langle']
+    cases += [''.join(t) for n in range(2, 4 if tier == 'quick' else 5) for t in itertools.product(S2, repeat=n)]
     words = SIGMA + ['\\begin{a}', '\\end{a}', '\\left(', '\\big|', '\\item', '\\x', '$$', '\\[', '\\]', '%c\n', '\\%', '\\\\', 'é', '😂']
     for _ in range(300 if tier == 'quick' else 5000):
         cases.append(''.join(rnd.choice(words) for _ in range(rnd.randrange(5, 30))))
